@@ -6,6 +6,7 @@
 From Coq Require Import ZArith List.
 From BS Require Import Model.Base Model.Num Model.LibVal Gen.ArgSpecs Model.LibSeq Proofs.C15.
 From BS Require Import Proofs.C15spec Proofs.C15histd Proofs.C15histe Proofs.C15histf.
+From BS Require Import Proofs.C15spec2 Proofs.C15str Proofs.C15histg.
 Import ListNotations.
 Local Open Scope Z_scope.
 
@@ -281,3 +282,59 @@ Print Assumptions C15_url_total_on_scalars.
 Example C15_url_nonvacuous : url_safe_of (U "urlEncode") = Some (U "':/&+") /\ url_safe_of (U "urlEncodeComponent") = Some (U "'")
   /\ url_quote (U "'") (U "a b/\0000e9") = Some (U "a%20b%2F%C3%A9").
 Proof. vm_compute. auto. Qed.
+
+(* ====================================================================== HISTORY, third round: the STRING functions inside histories
+   Proofs/C15spec2.v part A: each string function is a PURE operation of the abstract machine (the abstract state does not change;
+   stringSplit binds ONE fresh sequence), specified with plain list operations on code-point lists:
+     stringLength = length; stringCharCodeAt = nth_error; stringStartsWith / EndsWith = equality with firstn / skipn;
+     stringIndexOf = the LEAST position in [index, length] where the needle is a prefix of skipn (find over seq);
+     stringLastIndexOf = the GREATEST position in [0, index] (find over rev seq); stringSlice = skipn / firstn (a bound beyond the
+     length fails); stringRepeat = concat (repeat ..); stringSplit = cut at the least occurrence, go on after it;
+     stringReplace = join the new text between the pieces of the split (empty `old`: before every code point and at the end);
+     stringTrim = drop the white code points at both ends; stringFromCharCode = map over code points < 0x110000;
+     regexEscape / urlEncode / urlEncodeComponent = the encoder itself (their independent characterisations are C15_regex_escape
+     and C15_url_roundtrip above).
+   FAILURE cases are part of the abstract operations (SFail + documented failure value, state unchanged): wrong types, missing /
+   extra arguments, non-integral / negative indices, an index >= length (stringIndexOf / LastIndexOf: -1; stringCharCodeAt: null),
+   an inf / nan index (int() raises: null, also for the functions whose documented failure value is -1), stringSplit with an
+   empty separator, stringFromCharCode beyond 0x10FFFF, urlEncode of a lone surrogate. *)
+Example C15_OPS_S : map fst spec_table_s = map fst spec_table ++
+  [U "stringCharCodeAt"; U "stringEndsWith"; U "stringStartsWith"; U "stringFromCharCode"; U "stringIndexOf"; U "stringLastIndexOf";
+   U "stringLength"; U "stringRepeat"; U "stringReplace"; U "stringSlice"; U "stringSplit"; U "stringTrim";
+   U "regexEscape"; U "urlEncode"; U "urlEncodeComponent"].
+Proof. reflexivity. Qed.
+
+(* STEP, every function of OPS_S (35), EVERY argument list, every heap *)
+Theorem C15_history_step_with_strings : forall f, in_OPS_s f = true ->
+  forall args h, abs_call (lib f args h) = spec_call_s f args (abs h).
+Proof. exact spec_call_s_refines. Qed.
+Print Assumptions C15_history_step_with_strings.
+
+(* HISTORY with strings: the commuting square for any list of statements whose calls are OPS_S calls, from ANY state *)
+Theorem C15_history_with_strings : forall ops s, forallb op_in_OPS_s ops = true ->
+  abs_st (fold_left run_op ops s) = fold_left spec_step_s ops (abs_st s).
+Proof. exact history_refines_s. Qed.
+Print Assumptions C15_history_with_strings.
+
+(* OPS_S extends OPS conservatively (C15_history is the restriction of C15_history_with_strings) *)
+Theorem C15_strings_conservative : forall f, in_OPS f = true ->
+  in_OPS_s f = true /\ forall args m, spec_call_s f args m = spec_call f args m.
+Proof. intros f I. split; [apply in_OPS_in_OPS_s; exact I | apply spec_call_s_conservative; exact I]. Qed.
+Print Assumptions C15_strings_conservative.
+
+(* what the string specifications MEAN (sanity of the spec itself, independent of the model) *)
+Theorem C15_spec_prefix_suffix : forall p s,
+  (starts_with p s = true <-> exists t, s = p ++ t) /\ (ends_with p s = true <-> exists t, s = t ++ p).
+Proof. intros. split; [apply starts_with_iff | apply ends_with_iff]. Qed.
+Theorem C15_spec_first_occurrence : forall sub s from,
+  match first_occ sub s from with
+  | Some i => (from <= i <= length s)%nat /\ (exists t, skipn i s = sub ++ t)
+              /\ forall j, (from <= j < i)%nat -> ~ exists t, skipn j s = sub ++ t
+  | None => forall j, (from <= j <= length s)%nat -> ~ exists t, skipn j s = sub ++ t
+  end.
+Proof. intros. destruct (first_occ sub s from) eqn:E; [apply first_occ_least; exact E | apply first_occ_none; exact E]. Qed.
+Theorem C15_spec_trim : forall s, exists a b, s = a ++ trim s ++ b /\ forallb U_space a = true /\ forallb U_space b = true
+  /\ match trim s with c :: _ => U_space c = false | [] => True end
+  /\ match rev (trim s) with c :: _ => U_space c = false | [] => True end.
+Proof. exact trim_sound. Qed.
+Print Assumptions C15_spec_trim.
